@@ -70,6 +70,7 @@ type crashCtl struct {
 	raced bool
 	// faults: the readFault-th store read of this invocation fails (Unavailable); -1: none
 	readFault   int
+	writeFault  int // the writeFault-th store write of this invocation is answered Unavailable and not performed; -1: none
 	reads       int
 	faulted     bool
 	callsAtStop int // writes completed when the first injected fault / failed write happened
@@ -81,19 +82,20 @@ type crashCtl struct {
 }
 
 type crashSnap struct {
-	budget, calls, race, readFault, reads, callsAtStop, devCalls int
-	raced, faulted, writeFailed                                  bool
+	budget, calls, race, readFault, reads, callsAtStop, devCalls, writeFault int
+	raced, faulted, writeFailed                                              bool
 }
 
 func (c *crashCtl) snapshot() crashSnap {
 	c.mu.Lock()
 	defer c.mu.Unlock()
-	return crashSnap{c.budget, c.calls, c.race, c.readFault, c.reads, c.callsAtStop, c.devCalls, c.raced, c.faulted, c.writeFailed}
+	return crashSnap{c.budget, c.calls, c.race, c.readFault, c.reads, c.callsAtStop, c.devCalls, c.writeFault, c.raced, c.faulted, c.writeFailed}
 }
 func (c *crashCtl) restore(s crashSnap) {
 	c.mu.Lock()
 	defer c.mu.Unlock()
 	c.budget, c.calls, c.race, c.readFault, c.reads, c.callsAtStop, c.devCalls = s.budget, s.calls, s.race, s.readFault, s.reads, s.callsAtStop, s.devCalls
+	c.writeFault = s.writeFault
 	c.raced, c.faulted, c.writeFailed = s.raced, s.faulted, s.writeFailed
 	c.midcall = nil
 }
@@ -135,7 +137,21 @@ func (c *crashCtl) reset(b int) {
 	c.mu.Lock()
 	c.budget, c.calls, c.race, c.raced = b, 0, -1, false
 	c.readFault, c.reads, c.faulted, c.callsAtStop, c.writeFailed, c.midcall, c.devCalls = -1, 0, false, 0, false, nil, 0
+	c.writeFault = -1
 	c.mu.Unlock()
+}
+
+// failWrite is asked by the store decorators right after before(): true = answer Unavailable instead of writing
+func (c *crashCtl) failWrite() bool {
+	c.mu.Lock()
+	defer c.mu.Unlock()
+	if c.writeFault >= 0 && c.calls-1-c.devCalls == c.writeFault && !c.faulted && !c.writeFailed {
+		c.faulted = true
+		c.callsAtStop = c.calls - 1
+		c.calls-- // the write did not happen
+		return true
+	}
+	return false
 }
 func (c *crashCtl) arm(n int) { c.mu.Lock(); c.race = n; c.mu.Unlock() }
 func (c *crashCtl) racing() bool {
@@ -183,10 +199,16 @@ func (s *cTxs) Create(ctx context.Context, t *configapi.Transaction) error {
 }
 func (s *cTxs) Update(ctx context.Context, t *configapi.Transaction) error {
 	s.c.before()
+	if s.c.failWrite() {
+		return errors.NewUnavailable("injected: store write failed")
+	}
 	return s.c.wrote(s.Store.Update(ctx, t))
 }
 func (s *cTxs) UpdateStatus(ctx context.Context, t *configapi.Transaction) error {
 	s.c.before()
+	if s.c.failWrite() {
+		return errors.NewUnavailable("injected: store write failed")
+	}
 	return s.c.wrote(s.Store.UpdateStatus(ctx, t))
 }
 
@@ -212,10 +234,16 @@ func (s *cProps) Create(ctx context.Context, p *configapi.Proposal) error {
 }
 func (s *cProps) Update(ctx context.Context, p *configapi.Proposal) error {
 	s.c.before()
+	if s.c.failWrite() {
+		return errors.NewUnavailable("injected: store write failed")
+	}
 	return s.c.wrote(s.Store.Update(ctx, p))
 }
 func (s *cProps) UpdateStatus(ctx context.Context, p *configapi.Proposal) error {
 	s.c.before()
+	if s.c.failWrite() {
+		return errors.NewUnavailable("injected: store write failed")
+	}
 	return s.c.wrote(s.Store.UpdateStatus(ctx, p))
 }
 
@@ -237,10 +265,16 @@ func (s *cCfgs) Create(ctx context.Context, p *configapi.Configuration) error {
 }
 func (s *cCfgs) Update(ctx context.Context, p *configapi.Configuration) error {
 	s.c.before()
+	if s.c.failWrite() {
+		return errors.NewUnavailable("injected: store write failed")
+	}
 	return s.c.wrote(s.Store.Update(ctx, p))
 }
 func (s *cCfgs) UpdateStatus(ctx context.Context, p *configapi.Configuration) error {
 	s.c.before()
+	if s.c.failWrite() {
+		return errors.NewUnavailable("injected: store write failed")
+	}
 	return s.c.wrote(s.Store.UpdateStatus(ctx, p))
 }
 
@@ -358,7 +392,7 @@ func hx(s string) string {
 
 func newH(seed int64, hid string, out *bufio.Writer, ntargets int, persistent map[string]bool) *H {
 	h := &H{devs: map[string]*fakes.Device{}, devPos: map[string]int{}, policy: map[string][]codes.Code{}, poison: map[string]poisoned{}, focusCrash: map[string]int{}, holdSucc: map[string]uint64{},
-		crash: &crashCtl{budget: -1, race: -1, readFault: -1}, r: rand.New(rand.NewSource(seed)), out: out, hid: hid, knownC: map[string]bool{}, lastVerdict: -1,
+		crash: &crashCtl{budget: -1, race: -1, readFault: -1, writeFault: -1}, r: rand.New(rand.NewSource(seed)), out: out, hid: hid, knownC: map[string]bool{}, lastVerdict: -1,
 		raw: map[configapi.ConfigurationID]_map.Map[string, *configapi.PathValue]{}}
 	h.rs = h.r
 	h.plugin = &fakes.PluginClient{Name: ttype, Version: tversion}
@@ -822,6 +856,12 @@ func (h *H) reconcile(id recID, budget int) {
 			// a store read of this invocation fails
 			h.crash.mu.Lock()
 			h.crash.readFault = h.r.Intn(3)
+			h.crash.mu.Unlock()
+		} else if h.faults && h.r.Intn(12) == 0 {
+			// a store write of this invocation fails (the store is briefly unavailable): the invocation has to give up
+			// there - in particular it must not record as done what it could not write
+			h.crash.mu.Lock()
+			h.crash.writeFault = h.r.Intn(3)
 			h.crash.mu.Unlock()
 		} else if _, holding := h.holdSucc[id.a]; id.kind == "prop" && (holding || h.r.Intn(2) == 0) {
 			// while the device call of this invocation (if it makes one) is in flight, another invocation about the
